@@ -215,6 +215,13 @@ func (e *c16env) runRow(res *verifrt.Result, idx int, row c16row) {
 	logPath := filepath.Join(work, "procs.log")
 	runID := fmt.Sprintf("%d-%d-%d", os.Getpid(), idx, time.Now().UnixNano())
 	cmd := exec.Command(os.Args[0])
+	trace := ""
+	if row.Mode == "off" && (row.Marker == "unset" || row.Marker == "") {
+		// second witness for "nothing is launched and nothing is written": the
+		// system calls of the application and everything it starts
+		trace = filepath.Join(work, "strace.txt")
+		cmd = verifrt.StraceCommand(trace, os.Args[0])
+	}
 	env := []string{}
 	for _, kv := range os.Environ() {
 		k := strings.SplitN(kv, "=", 2)[0]
@@ -321,6 +328,31 @@ func (e *c16env) runRow(res *verifrt.Result, idx int, row c16row) {
 		if d := diffSnap(before, after); d != "" {
 			res.Violate("off-wrote", fmt.Sprintf("row [%s]: mode off but the telemetry directory changed: %s", row.String(), d), rp)
 		}
+		if evs, err := verifrt.ParseStrace(trace); err != nil || len(evs) == 0 {
+			res.Inconc(fmt.Sprintf("row [%s]: no strace witness (%v, %d events)", row.String(), err, len(evs)))
+		} else {
+			res.Hit("mode-off-strace-witness")
+			execs := 0
+			for _, ev := range evs {
+				if ev.Name == "execve" && ev.Err == "" && ev.Ret == 0 {
+					execs++
+					if execs > 1 {
+						res.Violate("off-launched:execve", fmt.Sprintf("row [%s]: mode off but the application executed %s(%.200s)", row.String(), ev.Name, ev.Args), rp)
+					}
+					continue
+				}
+				for _, p := range ev.Paths {
+					if (p == tdir || strings.HasPrefix(p, tdir+string(filepath.Separator))) && ev.Mutation() != "" {
+						if ev.Mutation() == "open-create" {
+							if rel, _ := filepath.Rel(tdir, p); before[rel] != "" {
+								continue
+							}
+						}
+						res.Violate("off-wrote:syscall:"+ev.Mutation(), fmt.Sprintf("row [%s]: mode off but the application made the system call %s(%.300s) = %d", row.String(), ev.Name, ev.Args, ev.Ret), rp)
+					}
+				}
+			}
+		}
 	}
 	if row.Marker == "2" || row.Marker == "3" || row.Marker == "x" {
 		if len(recs) > 1 {
@@ -364,7 +396,7 @@ func diffSnap(a, b map[string]string) string {
 func TestVerifC16Table(t *testing.T) {
 	const check = "C16.table"
 	res := verifrt.NewResult(check)
-	res.Rule = "the full decision table {child marker unset, '', 1, 2, 3, x} x {ReportCrashes} x {Upload} x {mode on, local, off, garbage, missing} x {token absent, fresh 1s/1h/23h59m, stale 24h1m/25h/10y} (840 rows; Config.TelemetryDir vs default location and pre-existing local/ alternate over the rows) run as real processes: the application (this binary re-executed), its sidecar, and the `go` command the uploader child runs (this binary again, first on PATH). Every process appends {pid, ppid, markers, argv} to a log before calling telemetry.Start. Oracle from the log and directory snapshots: sidecar iff permitted; upload flag iff token acquired; no marker-1 process below a marker-1/2 process; mode off: nothing started, nothing written. distinct = table rows (each run once; quick tier: every third row rotating with the seed, thorough: all)"
+	res.Rule = "the full decision table {child marker unset, '', 1, 2, 3, x} x {ReportCrashes} x {Upload} x {mode on, local, off, garbage, missing} x {token absent, fresh 1s/1h/23h59m, stale 24h1m/25h/10y} (840 rows; Config.TelemetryDir vs default location and pre-existing local/ alternate over the rows) run as real processes: the application (this binary re-executed), its sidecar, and the `go` command the uploader child runs (this binary again, first on PATH). Every process appends {pid, ppid, markers, argv} to a log before calling telemetry.Start. Oracle from the log and directory snapshots: sidecar iff permitted; upload flag iff token acquired; no marker-1 process below a marker-1/2 process; mode off: nothing started, nothing written — also judged on the system calls of the whole process tree recorded by strace -f (no execve beyond the application's own, no successful create/truncate/unlink/rename/mkdir/chmod/touch/write on a path under the telemetry directory). distinct = table rows (each run once; quick tier: every third row rotating with the seed, thorough: all)"
 	rows := c16Rows()
 	nb := 16
 	per := (len(rows) + nb - 1) / nb
@@ -383,7 +415,7 @@ func TestVerifC16Table(t *testing.T) {
 		}
 	})
 	res.Extra["table_rows"] = len(rows)
-	res.Require("sidecar-launched", "mode-off", "token-acquired", "token-refused", "descendant-with-marker-2")
+	res.Require("sidecar-launched", "mode-off", "mode-off-strace-witness", "token-acquired", "token-refused", "descendant-with-marker-2")
 	if err := res.Write(); err != nil {
 		t.Fatal(err)
 	}
